@@ -250,6 +250,17 @@ mod verif_kani {
         let (_, is_ok, _) = decode_int(&bytes);
         assert!(!is_ok);
     }
+    /// C13, COMPLETE over all 2^64 declared lengths: a byte-string head (8-byte length form; the decoder arm is shared with text strings, whose UTF-8 validation loop CBMC could not close) with no payload
+    /// behind it is answered with an error - no panic (no overflow of offset + length, no out-of-range slice), whatever
+    /// the declared length
+    #[kani::proof]
+    #[kani::unwind(10)]
+    fn c13_bytes_head_total() {
+        let len: [u8; 8] = kani::any();
+        let bytes = [0x5bu8, len[0], len[1], len[2], len[3], len[4], len[5], len[6], len[7]];
+        let (_, is_ok, _) = decode_int(&bytes);
+        assert!(!is_ok);
+    }
     /// reachability guard (must FAIL): some f32 payload is accepted
     #[kani::proof]
     #[kani::unwind(10)]
